@@ -4,7 +4,7 @@ import nodecheck
 PROFILE = dict(outbound=0.5)
 W = nodecheck.weights(close=2.5, readerr=2, accept=5, cer=9, tick=5)
 N_QUICK, N_THOROUGH, LENGTH = 60, 1500, 18
-THEMES = (("handshake_in", 2, 60, 3, 600), ("handshake_out", 2, 60, 3, 600), ("ready", 2, 40, 2, 2000), ("two_peers", 300, 0, None, 0), ("realms", None, 0, None, 0), ("reconnect_after_dpr", 200, 0, None, 0), ("refused_twin", 100, 0, None, 0))
+THEMES = (("handshake_in", 2, 60, 3, 600), ("handshake_out", 2, 60, 3, 600), ("ready", 2, 40, 2, 2000), ("two_peers", 300, 0, None, 0), ("realms", 250, 0, None, 0), ("reconnect_after_dpr", 200, 0, None, 0), ("refused_twin", 100, 0, None, 0))
 FILES = ["Props/C13.v"]
 
 
@@ -90,6 +90,70 @@ def self_closing(run):
             r.shutdown()
 
 
+def self_closing_interleaved(run, max_pre=2, cap=120):
+    """A connection closes itself on its READER thread (PeerConnection.close) while the I/O thread may run between any two
+    of its source lines: every interleaving with <= max_pre pre-emptions must end with the connection out of every table
+    and its socket closed (the three threads of the property's 'why tests cannot': tables updated from several threads)."""
+    import nodesim as NS
+    from vsim import Sim
+    stack, n = [[]], 0
+    while stack and n < cap:
+        prefix = stack.pop()
+        rec = []
+        sim = Sim(seed=1, t0=NS.T0)
+        try:
+            sim.script_random([77, 12345])
+            node = sim.node_mod.Node("srv.example.net", "example.net", ip_addresses=["10.0.0.1"], tcp_port=3868)
+            app = sim.app_mod.SimpleThreadingApplication(4, is_auth_application=True, request_handler=lambda a, m: None)
+            node.add_application(app, [node.add_peer("aaa://cli0.example.net", "example.net")])
+            node.start()
+            sim.run()
+            sim.script_random([1000])
+            r = sim.connect_in()
+            sim.run()
+            r.feed(NS.build_message(dict(kind="cer", host="cli0.example.net", hbh=1, e2e=1)))
+            sim.run()
+            state = {"prev": None}
+
+            def ch(runnable, prefix=prefix, rec=rec, state=state):
+                i = len(rec)
+                prev = state["prev"]
+                pre = rec[-1][2] if rec else 0
+                c = prefix[i] if i < len(prefix) and prefix[i] in runnable else (prev if prev in runnable else runnable[0])
+                rec.append((list(runnable), c, pre + (1 if (prev in runnable and c != prev) else 0)))
+                state["prev"] = c
+                return c
+            P = sim.peer_mod.PeerConnection
+            sim.line_mode([P.close, P.demand_attention], ch)
+            r.feed(bytes(40))            # cannot be a Diameter header: the reader closes the connection
+            sim.run()
+            sim.line_mode(None)
+            sim.advance(2)
+            n += 1
+            sched = [d[1] for d in rec]
+            run.count(1, [("self-closing-interleaved", tuple(sched))] if len(set(sched)) > 1 else ())
+            left = {"connections": len(node.connections), "peer_sockets": len(node.peer_sockets), "socket_open": not r.closed_by_node,
+                    "peer_connection_set": node.peers["cli0.example.net"].connection is not None}
+            if any(left.values()) or sim.thread_deaths:
+                run.violation("closed-nowhere", {"scenario": "connection closes itself, I/O thread interleaved", "schedule": sched}, left,
+                              "no table entry, socket closed, peer.connection None",
+                              what="a connection that closed itself stays in the node's tables when the I/O thread runs between two lines of close()")
+                return
+            for i in range(len(prefix), len(rec)):
+                runnable, chosen, _p = rec[i]
+                prev = rec[i - 1][1] if i else None
+                before = rec[i - 1][2] if i else 0
+                for alt in runnable:
+                    if alt != chosen and before + (1 if (prev in runnable and alt != prev) else 0) <= max_pre:
+                        stack.append(sched[:i] + [alt])
+        except Exception as e:   # noqa
+            run.notes.append(f"self_closing_interleaved: {type(e).__name__}: {e}")
+            return
+        finally:
+            sim.shutdown()
+    run.extra["self_closing_schedules"] = n
+
+
 def check(run):
     # the self-closing histories are judged right after the obligations; their violations are reported by the common finish()
     orig_obligations = run.obligations
@@ -97,6 +161,7 @@ def check(run):
     def obligations_then_self_closing(files):
         out = orig_obligations(files)
         self_closing(run)
+        self_closing_interleaved(run)
         return out
     run.obligations = obligations_then_self_closing
     return nodecheck.run(run, "C13", FILES, PROFILE, W, N_QUICK, N_THOROUGH, LENGTH, themes=THEMES, known=known, extra_scenarios=corpus())
